@@ -92,19 +92,18 @@ def hex8 (n : Nat) : Str := hex4 (n / 65536) ++ hex4 (n % 65536)
 def quoteRune (isPrint : Nat → Bool) : Rune → Str
   | .bad b => bs :: .ch 'x' :: hex2 b.toNat
   | .ch c =>
-    let n := c.toNat
-    if n = 34 ∨ n = 92 then [bs, .ch c]
-    else if isPrint n then [.ch c]
-    else if n = 7 then [bs, .ch 'a']
-    else if n = 8 then [bs, .ch 'b']
-    else if n = 12 then [bs, .ch 'f']
-    else if n = 10 then [bs, .ch 'n']
-    else if n = 13 then [bs, .ch 'r']
-    else if n = 9 then [bs, .ch 't']
-    else if n = 11 then [bs, .ch 'v']
-    else if n < 32 ∨ n = 127 then bs :: .ch 'x' :: hex2 n
-    else if n < 0x10000 then bs :: .ch 'u' :: hex4 n
-    else bs :: .ch 'U' :: hex8 n
+    if c.toNat = 34 ∨ c.toNat = 92 then [bs, .ch c]
+    else if isPrint c.toNat then [.ch c]
+    else if c.toNat = 7 then [bs, .ch 'a']
+    else if c.toNat = 8 then [bs, .ch 'b']
+    else if c.toNat = 12 then [bs, .ch 'f']
+    else if c.toNat = 10 then [bs, .ch 'n']
+    else if c.toNat = 13 then [bs, .ch 'r']
+    else if c.toNat = 9 then [bs, .ch 't']
+    else if c.toNat = 11 then [bs, .ch 'v']
+    else if c.toNat < 32 ∨ c.toNat = 127 then bs :: .ch 'x' :: hex2 c.toNat
+    else if c.toNat < 0x10000 then bs :: .ch 'u' :: hex4 c.toNat
+    else bs :: .ch 'U' :: hex8 c.toNat
 
 def quoteBody (isPrint : Nat → Bool) : Str → Str
   | [] => []
